@@ -8,6 +8,13 @@
 (* specification predicts for EVERY execution: that of running alone.  Random *)
 (* numbers and the initial seed appear in it as tokens (>= 10000): equal      *)
 (* tokens are equal numbers in all executions of the case.                    *)
+(* Extra = "rules": bodies over the menu of RANGE RULES (SharedProgram: "range"),  *)
+(* executions that end inside a range included.                                *)
+(* Fam = "formats": like "shell", for programs that convert a NON-INTEGER        *)
+(* number (print through OFMT, concatenation through CONVFMT): NG free-running  *)
+(* executions, every one with number formats of its own (fmts[i] = FmtOf(i)     *)
+(* fraction digits in OFMT, one more in CONVFMT, given as Config.Vars); the     *)
+(* case holds what running alone with ITS formats gives.                        *)
 (* Fam = "shell": programs over the instructions that START COMMANDS, for NG   *)
 (* executions that run freely at the same time (no schedule is imposed: the    *)
 (* step that matters lies inside one instruction), every execution with an     *)
@@ -18,14 +25,22 @@
 (* interleavings of the two steps of starting a command).                       *)
 EXTENDS SharedProgram, Json
 
-CONSTANTS MaxLen, Rich, Fam, NG
+CONSTANTS MaxLen, Rich, Fam, NG, Extra
 
 \* regular expression 3 (/1|10/) is used both as the compiled literal ("match") and, with the same source, on the
 \* run-time path ("rlen")
 CmdMenu == { [op |-> "set", g |-> 1, k |-> 3], [op |-> "print", g |-> 1, k |-> 0],
              [op |-> "system", g |-> 1, k |-> 0], [op |-> "cmdgetline", g |-> 1, k |-> 0], [op |-> "cmdgetline", g |-> 2, k |-> 0],
              [op |-> "printcmd", g |-> 1, k |-> 0], [op |-> "close", g |-> 1, k |-> 0] }
-Menu == IF Fam = "shell" THEN CmdMenu ELSE
+\* Extra = "rules": programs with range rules over the three records of the input (closing before the end, at the record
+\* that opens them, later than they open, or never: the execution ends inside the range)
+RuleMenu == { [op |-> "range", g |-> 1, k |-> 2], [op |-> "range", g |-> 2, k |-> 9], [op |-> "range", g |-> 3, k |-> 3],
+              [op |-> "range", g |-> 2, k |-> 3], [op |-> "range", g |-> 3, k |-> 9],
+              [op |-> "set", g |-> 1, k |-> 3], [op |-> "print", g |-> 1, k |-> 0] }
+\* Fam = "formats": conversions of a non-integer number under the formats of the execution
+FmtMenu == { [op |-> "set", g |-> 1, k |-> 3], [op |-> "add", g |-> 1, k |-> 2], [op |-> "oprint", g |-> 1, k |-> 0],
+             [op |-> "conv", g |-> 1, k |-> 0], [op |-> "print", g |-> 1, k |-> 0] }
+Menu == IF Fam = "shell" THEN CmdMenu ELSE IF Fam = "formats" THEN FmtMenu ELSE IF Extra = "rules" THEN RuleMenu ELSE
         { [op |-> "set", g |-> 1, k |-> 3], [op |-> "set", g |-> 2, k |-> 4],
           [op |-> "add", g |-> 1, k |-> 2],
           [op |-> "match", g |-> 2, k |-> 3], [op |-> "rlen", g |-> 2, k |-> 3],
@@ -85,6 +100,16 @@ EmitShell ==
                        expect |-> [i \in 1..NG |-> [out |-> SoloFor(body, CmdOf(i)).out, g |-> SoloFor(body, CmdOf(i)).g]]])
      IN Len(j) > 0 /\ PrintT(j)
   /\ emitted' = TRUE /\ UNCHANGED <<body, program, shell, interp, runs, sched>>
-Next == Grow \/ Freeze \/ (\E i \in 1..NProc : New(i) \/ Step(i)) \/ Emit \/ EmitShell
+Converts(b) == \E j \in 1..Len(b) : b[j].op \in FmtOps
+EmitFormats ==
+  /\ Fam = "formats"
+  /\ program # <<>> /\ ~emitted /\ Converts(body)
+  /\ LET j == ToJson([fam |-> "formats", body |-> body, ng |-> NG,
+                       fmts |-> [i \in 1..NG |-> FmtOf(i)],
+                       apis |-> [i \in 1..NG |-> ApiOf(i)],
+                       expect |-> [i \in 1..NG |-> [out |-> SoloFor(body, i).out, g |-> SoloFor(body, i).g]]])
+     IN Len(j) > 0 /\ PrintT(j)
+  /\ emitted' = TRUE /\ UNCHANGED <<body, program, shell, interp, runs, sched>>
+Next == EmitFormats \/ Grow \/ Freeze \/ (\E i \in 1..NProc : New(i) \/ Step(i)) \/ Emit \/ EmitShell
 Spec == Init /\ [][Next]_vars
 =============================================================================
